@@ -12,11 +12,6 @@ set_option linter.unusedVariables false
 
 variable {ν : Type} [DecidableEq ν]
 
-/-- the invariant of a `Matrix`: row-major data of exactly `rows × columns ≥ 1` elements, and no
-    more than `usize::MAX` of them -/
-def MatrixMeta.Inv (m : MatrixMeta) : Prop :=
-  m.dataLen = m.rows * m.columns ∧ 1 ≤ m.rows ∧ 1 ≤ m.columns ∧ m.dataLen ≤ usizeMax
-
 theorem MatrixMeta.get_eq (m : MatrixMeta) (h : m.Inv) (row column : Nat) :
     m.get row column =
       .ok (if row < m.rows ∧ column < m.columns then some (column + row * m.columns) else none) := by
@@ -112,10 +107,6 @@ theorem mreverse_total (src : MView) (hsrc : src.WF) (rows columns : Bool) :
     exact mtotal_of_coords ht hf hg row column
 
 theorem mmap_total (src : MView) (hsrc : src.WF) : src.map.WF := hsrc
-
-/-- a `MatrixPart` whose row slices really have the advertised size -/
-def MatrixPart.Rect (p : MatrixPart) : Prop :=
-  p.rows ≤ p.data.length ∧ ∀ slice ∈ p.data, p.columns ≤ slice.length
 
 theorem mpart_total (p : MatrixPart) (h : p.Rect) : (MView.ofPart p).Total := by
   intro row column
